@@ -1,0 +1,83 @@
+//go:build verif
+
+package cli
+
+import (
+	"bytes"
+	"io"
+)
+
+// Hooks for the C12 check of /verif (encoders): they only call the unexported
+// encoder, YAML marshaler and command entry point of this package; nothing in
+// the package's behaviour depends on this file.
+
+type verifC12ChunkWriter struct{ chunks [][]byte }
+
+func (w *verifC12ChunkWriter) Write(p []byte) (int, error) {
+	w.chunks = append(w.chunks, append([]byte(nil), p...))
+	return len(p), nil
+}
+
+// VerifC12EncodeChunks runs the command's JSON encoder exactly as
+// createMarshaler/printValues do (newEncoder(tab, indent).marshal) and returns
+// every Write the encoder issued on the output stream, in order. indent is the
+// encoder's own parameter (-1 compact, 1 with tab, n for --indent n). color
+// selects noColor the way runInternal does for -C / -M.
+func VerifC12EncodeChunks(v any, indent int, tab bool, color bool) ([][]byte, error) {
+	defer func(x bool) { noColor = x }(noColor)
+	noColor = !color
+	w := &verifC12ChunkWriter{}
+	err := newEncoder(tab, indent).marshal(v, w)
+	return w.chunks, err
+}
+
+// VerifC12Encode is the concatenation of VerifC12EncodeChunks.
+func VerifC12Encode(v any, indent int, tab bool, color bool) ([]byte, error) {
+	chunks, err := VerifC12EncodeChunks(v, indent, tab, color)
+	return bytes.Join(chunks, nil), err
+}
+
+// VerifC12EncodeTwice marshals two values with ONE encoder (the command reuses
+// its encoder and buffer for every output value).
+func VerifC12EncodeTwice(v1, v2 any, indent int, tab bool, color bool) ([]byte, []byte, error) {
+	defer func(x bool) { noColor = x }(noColor)
+	noColor = !color
+	e := newEncoder(tab, indent)
+	var b1, b2 bytes.Buffer
+	if err := e.marshal(v1, &b1); err != nil {
+		return nil, nil, err
+	}
+	err := e.marshal(v2, &b2)
+	return b1.Bytes(), b2.Bytes(), err
+}
+
+// VerifC12YAMLWrite is what --yaml-output writes for one value.
+func VerifC12YAMLWrite(v any, indent *int) ([]byte, error) {
+	var b bytes.Buffer
+	err := yamlFormatter(indent).marshal(v, &b)
+	return b.Bytes(), err
+}
+
+// VerifC12YAMLRead is what --yaml-input yields for a text (all documents).
+func VerifC12YAMLRead(text []byte) ([]any, error) {
+	iter := newYAMLInputIter(bytes.NewReader(text), "<verif>")
+	defer iter.Close()
+	var out []any
+	for {
+		v, ok := iter.Next()
+		if !ok {
+			return out, nil
+		}
+		if err, ok := v.(error); ok {
+			return out, err
+		}
+		out = append(out, v)
+	}
+}
+
+// VerifC12Run runs the whole command in-process (flag parsing included).
+func VerifC12Run(args []string, stdin io.Reader) (stdout, stderr []byte, code int) {
+	var o, e bytes.Buffer
+	code = (&cli{inStream: stdin, outStream: &o, errStream: &e}).run(args)
+	return o.Bytes(), e.Bytes(), code
+}
